@@ -455,6 +455,8 @@ def evaluate(ctx, case, want_corr=False):
                 rb = float(data[f][0])
                 printed = Fr(toks[f][k])
                 src = exact(npvals[(f, c)])
+                if rb.hex() != float(toks[f][k]).hex() and not (rb == 0 == float(toks[f][k])):
+                    ctx.fail(case, f'frame {f} channel {names[c]}: read back {rb!r} ({rb.hex()}) is not float({toks[f][k]!r}) = {float(toks[f][k]).hex()}'); return None
                 if not math.isfinite(rb) or abs(Fr(rb) - printed) > Fr(math.ulp(rb)) / 2:
                     ctx.fail(case, f'frame {f} channel {names[c]}: read back {rb!r} is not the double nearest to the printed {toks[f][k]}'); return None
                 bound = (half if isf else (Fr(1, 2) if red in ('mean', 'median') else Fr(0))) + Fr(math.ulp(rb)) / 2
